@@ -40,3 +40,53 @@ type Emb struct {
 	*T
 	Zed uint8
 }
+
+// EmbMid embeds a struct by value and one by pointer, neither in first position (the offsets of the
+// promoted fields are not those inside the embedded struct).
+type EmbMid struct {
+	ID int
+	Leaf
+	Name string
+	*T
+	Zed uint8
+}
+
+// TLeaf carries tags and is embedded by EmbTag.
+type TLeaf struct {
+	Rank  int16  `json:"rank"`
+	Word  string `json:"w,omitempty"`
+	Delta uint32
+}
+
+// EmbTag is EmbMid with json tags on both levels.
+type EmbTag struct {
+	ID   int `json:"id"`
+	Size int64
+	TLeaf
+	Name string `json:"name,omitempty"`
+	*Leaf
+	Zed uint16 `json:"z"`
+}
+
+// Widths has a field of every integer and float width.
+type Widths struct {
+	I8  int8
+	U8  uint8
+	I16 int16
+	U16 uint16
+	I32 int32
+	U32 uint32
+	I64 int64
+	U64 uint64
+	I   int
+	U   uint
+	F32 float32
+	F64 float64
+}
+
+// WideIn is Widths behind an embedded struct in second position and with tags.
+type WideIn struct {
+	Flag bool `json:"flag"`
+	Widths
+	Tail string `json:"tail"`
+}
